@@ -205,28 +205,26 @@ func propC13(c *Check) {
 					}
 				}
 				// locking index cleared: every coin's entry is removed on the way to the write, none is (re)written
-				lr := p.FindCalls(f, `^Locking\.Remove\(collections\.Join\(.*\.Locking\[.*\]\.Denom, `)
+				lr := p.FindCallsDeep(f, `^Locking\.Remove\(collections\.Join\(.*\.Locking\[.*\]\.Denom, `)
 				to := strings.Trim(en.Str(w.To), "{}")
 				if len(lr) == 0 {
 					c.Violated("R3", "locking-index-cleared status→"+to+" @ "+key, p.InstrPos(w.Store), "the record leaves {Pending,Active} but its Locking index entries are not removed (token weight changes would re-rank it)")
 				} else {
 					bad := false
 					for _, rmv := range lr {
-						if skip, path := loopIterationCanSkip(f, rmv); skip {
+						if skip, path := p.deepIterationCanSkip(f, rmv); skip {
 							bad = true
-							c.Violated("R3", "locking-index-cleared status→"+to+" @ "+key, p.InstrPos(rmv), "an iteration over the record's coins can skip Locking.Remove: the entry survives although the record leaves {Pending,Active}", p.describePath(path)...)
+							c.Violated("R3", "locking-index-cleared status→"+to+" @ "+key, p.InstrPos(rmv.Call), "an iteration over the record's coins can skip Locking.Remove: the entry survives although the record leaves {Pending,Active}", p.describePath(path)...)
 						}
 					}
-					for _, s2 := range p.StoreSites(f) {
-						if s2.Field.Name() == "Locking" && s2.Method == "Set" {
-							if t, path := (&PathSearch{Fn: f, From: s2.Call, AvoidInstr: instrSet(ws), IsTarget: func(in ssa.Instruction) bool { return in == ssa.Instruction(w.Store) }}).Find(); t != nil {
-								bad = true
-								c.Violated("R3", "locking-index-cleared status→"+to+" @ "+key, p.InstrPos(s2.Call), "a Locking index entry is written for a record that then leaves {Pending,Active}", p.describePath(path)...)
-							}
+					for _, s2 := range p.FindCallsDeep(f, `^Locking\.Set\(`) {
+						if t, path := (&PathSearch{Fn: f, From: s2.Site0(), AvoidInstr: instrSet(ws), IsTarget: func(in ssa.Instruction) bool { return in == ssa.Instruction(w.Store) }}).Find(); t != nil {
+							bad = true
+							c.Violated("R3", "locking-index-cleared status→"+to+" @ "+key, p.InstrPos(s2.Call), "a Locking index entry is written for a record that then leaves {Pending,Active}", p.describePath(path)...)
 						}
 					}
 					if !bad {
-						c.Held("R3", "locking-index-cleared status→"+to+" @ "+key, p.InstrPos(lr[0]), "Locking.Remove in every iteration over the record's coins, no Locking.Set on the way")
+						c.Held("R3", "locking-index-cleared status→"+to+" @ "+key, p.InstrPos(lr[0].Call), "Locking.Remove in every iteration over the record's coins, no Locking.Set on the way")
 					}
 				}
 			}
@@ -254,8 +252,8 @@ func propC13(c *Check) {
 			}
 		}
 	}
-	c.Floor("R1", "PowerRanking.Set sites", nSet, 5)
-	c.Floor("R1", "PowerRanking.Remove sites", nRemove, 5)
+	c.Floor("R1", "PowerRanking.Set sites", nSet, 2)
+	c.Floor("R1", "PowerRanking.Remove sites", nRemove, 2)
 
 	// R4 EndBlocker
 	eb := p.MustFn("x/locking/keeper.Keeper.EndBlocker")
@@ -288,7 +286,7 @@ func propC13(c *Check) {
 		for i, s := range p.StoreSites(eb) {
 			if s.Field.Name() == "ValidatorSet" && s.Method == "Set" {
 				k, v := r.E(s.Args[0]), r.E(s.Args[1])
-				if regexp.MustCompile(`^Validators\.Get\(`+regexp.QuoteMeta(k)+`\)#0\.Power$`).MatchString(v) {
+				if regexp.MustCompile(`^Validators\.Get\(` + regexp.QuoteMeta(k) + `\)#0\.Power$`).MatchString(v) {
 					c.Held("R4", fmt.Sprintf("ValidatorSet.Set#%d @ %s", i, FuncKey(eb)), p.InstrPos(s.Call), "records the reported power under the validator's address")
 				} else {
 					c.Violated("R4", fmt.Sprintf("ValidatorSet.Set#%d @ %s", i, FuncKey(eb)), p.InstrPos(s.Call), "ValidatorSet["+k+"] = "+v+" is not the power of that validator's record")
@@ -364,7 +362,11 @@ func propC14(c *Check) {
 				c.RequireFact(f, "R1", "unjail-after-jail-time", `^Time\.After\(Context\.BlockTime\(\), .*\.JailedUntil\)$`, tgt, "unjail")
 				c.RequireFact(f, "R1", "unjail-meets-thresholds", `^Coins\.IsAllGTE\(.*, Threshold\.Get\(\)#0\.List\)$`, tgt, "unjail")
 			case w.To == en.Set("Downgrade"):
-				c.RequireFact(f, "R1", "jail-needs-missed-blocks", `^\(\$\d\.MaxMissedPerWindow <= .*SigningInfo\.Missed.*\)$`, tgt, "jail")
+				// the counter compared is the stored counter, incremented or not by this block — never a value that
+				// can come from the window roll-over reset (comparing after the reset forgives a full window of misses)
+				x := `[^|{}]*SigningInfo\.Missed`
+				alt := `(?:\(1 \+ ` + x + `\)|` + x + `)`
+				c.RequireFact(f, "R1", "jail-needs-missed-blocks", `^\(\$\d\.MaxMissedPerWindow <= (?:`+alt+`|(?:mix|φ)\{`+alt+`(?:\|`+alt+`)*\})\)$`, tgt, "jail")
 			}
 		}
 		// a record that may be Tombstoned is never written back
@@ -390,7 +392,7 @@ func propC14(c *Check) {
 	}
 	sort.Strings(relation)
 	c.Extra["status_relation"] = relation
-	c.Floor("R1", "validator status writes", nW, 7)
+	c.Floor("R1", "validator status writes", nW, 4)
 
 	// R2 downtime path
 	hv := p.MustFn("x/locking/keeper.Keeper.handleVoteInfo")
@@ -446,8 +448,8 @@ func propC14(c *Check) {
 					c.Violated("R2", "jail"+path+" @ "+FuncKey(hv), p.InstrPos(w.Store), "not set together with the Downgrade status reason=not-established")
 				}
 				// slashed with the downtime fraction before being jailed
-				sl := p.FindCalls(hv, `^Slashed\.Set\(`)
-				if len(sl) == 1 && strings.Contains(p.CallStr(sl[0]), "$4.SlashFractionDowntime") {
+				sl := p.FindCallsDeep(hv, `^Slashed\.Set\(`)
+				if len(sl) == 1 && strings.Contains(sl[0].Str, "$4.SlashFractionDowntime") {
 					c.RequireCall(hv, "R2", "slash-before-jail", `^PowerRanking\.Remove\(`, instrSet([]ssa.Instruction{w.Store}), "jail")
 				} else {
 					c.Violated("R2", "downtime-slash @ "+FuncKey(hv), p.InstrPos(w.Store), "no Slashed.Set with the downtime fraction on the jail path reason=not-established")
@@ -564,6 +566,10 @@ func propC14(c *Check) {
 
 func propC15(c *Check) {
 	p := c.p
+	c.Rule("R4", "no lost update: two read-modify-write sequences on one keeper map whose keys may coincide (the unlock queue entries for the unlock and the exit delay, …) are never interleaved — each entry is written back before the next one is read")
+	if n, bad := c.lostUpdates("R4", nil); bad == 0 {
+		c.Held("R4", "no-interleaved-read-modify-write", "", fmt.Sprintf("%d pairs of sequences with different key expressions examined in all production functions", n))
+	}
 	c.Rule("R1", "unlock: maturity = BlockTime + ExitingDuration when exiting (status Inactive/Tombstoned or remaining < token threshold), BlockTime + UnlockDuration otherwise; the exiting branch zeroes power, moves Active/Pending/Downgrade to Inactive, clears the locking index and never re-ranks")
 	c.Rule("R2", "DequeueMatureUnlocks: walks entries with time <= BlockTime, removes every visited key, appends every visited unlock once to the execution queue in walk order and stores the queue")
 	c.Rule("R3", "writers: UnlockQueue is written only by unlock (Set), DequeueMatureUnlocks (Remove) and genesis; locking Params have no runtime writer")
